@@ -5,3 +5,4 @@ import NunVerif.Props.C08
 import NunVerif.Props.C09
 import NunVerif.Props.C10
 import NunVerif.Props.C15
+import NunVerif.Props.C17
